@@ -388,7 +388,32 @@ def w_lookups(_):
     return acc.res()
 
 
+def w_tc28(_):
+    """TC28: subtype(8) x emergency state(8) x identity-code alphabet (0000, 7500, 7600, 7700, 7777, 1234, each with both X
+    values) x reserved tail {0, ones}: emergency_state / is_emergency depend on subtype and state only."""
+    from spec import identity as ID
+    acc = Acc()
+    sq = [ID.encode(a, b, c, d, x) for (a, b, c, d) in ((0, 0, 0, 0), (7, 5, 0, 0), (7, 6, 0, 0), (7, 7, 0, 0), (7, 7, 7, 7), (1, 2, 3, 4)) for x in (0, 1)]
+    i_state = [i for i, sp in enumerate(SPECS) if sp[0] == "emergency_state"][0]
+    i_emerg = [i for i, sp in enumerate(SPECS) if sp[0] == "is_emergency"][0]
+    for st in range(8):
+        for state in range(8):
+            for code in sq:
+                for tail in (0, 0xFFFFFFFF):
+                    me = F.me(28, [(6, 3, st), (9, 3, state), (12, 13, code)]) | tail
+                    msg = F.es(me, 0x4840D6, 5, 17)
+                    for si in (i_state, i_emerg):
+                        acc.n += 1
+                        s = judge_field(si, (st, state), msg)
+                        if s:
+                            acc.bad(s + ":depends_on_identity_code", {"kind": "field", "spec": si, "name": SPECS[si][0], "values": [st, state], "msg": msg})
+            acc.out.add(("tc28", st, state))
+    return acc.res()
+
+
 def w_any(t):
+    if t[0] == "e":
+        return w_tc28(None)
     return {"f": w_field, "c": w_cats, "l": w_lookups}[t[0]](t[1])
 
 
@@ -396,7 +421,7 @@ def run(ctx):
     import random
     rng = random.Random(ctx.seed)
     bgs = BGS + [rng.getrandbits(56) for _ in range(2)]
-    tasks = [("c", None), ("l", None)]
+    tasks = [("c", None), ("l", None), ("e", None)]
     for i, (name, tc, st, flds, fexp) in enumerate(SPECS):
         combos = list(itertools.product(*[range(1 << l) for s, l in flds]))
         sub = set(combos[:2] + combos[-2:] + combos[len(combos) // 2:len(combos) // 2 + 2])
@@ -412,7 +437,7 @@ def replay(case):
     k = case["kind"]
     if k == "field":
         s = judge_field(case["spec"], tuple(case["values"]), case["msg"])
-        return [(s, case), (s + ":bg1", case)] if s else []
+        return [(s, case), (s + ":bg1", case), (s + ":depends_on_identity_code", case)] if s else []
     if k == "cat":
         if case["sub"] == "mono":
             return [(s, c) for s, c in w_cats(None)["viols"]]
